@@ -4,6 +4,7 @@ import (
 	"fmt"
 	"strings"
 	"time"
+	"unicode/utf8"
 
 	"verif/harness/internal/core"
 	"verif/harness/internal/obs"
@@ -41,6 +42,34 @@ func XText(r *core.Rng, n int) string {
 			b[i] = ' '
 		} else {
 			b[i] = xmlSafe[r.Intn(len(xmlSafe))]
+		}
+	}
+	if n >= 8 && r.Chance(1, 6) {
+		// non-ASCII text, among it characters that Unicode calls spaces but XML does not (they are
+		// part of the value wherever they stand); the byte length stays n
+		put := func(at int, u string) {
+			if at >= 0 && at+len(u) <= n {
+				copy(b[at:], u)
+			}
+		}
+		us := []string{"\u00a0", "\u3000", "\u2003", "\u0085", "\u2028", "\u00e9", "\u6771", "\u00df"}
+		if r.Bool() {
+			put(0, us[r.Intn(len(us))])
+		}
+		if r.Bool() {
+			u := us[r.Intn(len(us))]
+			put(n-len(u), u)
+		}
+		if r.Bool() {
+			put(r.Range(3, n-4)-3+3, us[r.Intn(len(us))])
+		}
+		// keep the result valid UTF-8 (overlapping writes may have cut a character)
+		if !utf8.Valid(b) {
+			for i := range b {
+				if b[i] >= 0x80 {
+					b[i] = 'x'
+				}
+			}
 		}
 	}
 	return string(b)
